@@ -296,6 +296,7 @@ func scenarioSessions(c *vrun.Ctx) {
 			s := siteOnce()
 			auth.StartSessionGC()
 			var cookie string
+			var dead []string
 			var lo, hi time.Time // B5: must be accepted until lo, must be refused after hi
 			loggedOut := true
 			for step, ev := range hist {
@@ -307,6 +308,13 @@ func scenarioSessions(c *vrun.Ctx) {
 						problem, kind = fmt.Sprintf("step %d: login with the right password failed (%d)", step, r.Status), "correct-password-rejected"
 						return
 					}
+					if cookie != "" && (loggedOut || now.After(hi)) && cookie != ck {
+						dead = append(dead, cookie) // logged out or expired for good: no later event may bring it back
+					}
+					if cookie != "" && (loggedOut || now.After(hi)) && cookie == ck {
+						problem, kind = fmt.Sprintf("step %d: the login issued the session id of a session that was logged out or had expired", step), "dead-session-id-reissued"
+						return
+					}
 					cookie, loggedOut = ck, false
 					lo, hi = now.Add(time.Hour), now.Add(time.Hour)
 				case "bad-login":
@@ -316,6 +324,12 @@ func scenarioSessions(c *vrun.Ctx) {
 						return
 					}
 				case "req":
+					for _, d := range dead {
+						if rd := s.do("GET", "/api/auth/me", d, "", nil); rd.Status != 401 {
+							problem, kind = fmt.Sprintf("step %d: the cookie of a session that had been logged out / had expired before a later login was answered %d instead of 401", step, rd.Status), "dead-session-accepted/after-later-login"
+							return
+						}
+					}
 					r := s.do("GET", "/api/auth/me", cookie, "", nil)
 					accepted := r.Status != 401
 					switch {
